@@ -208,8 +208,10 @@ orc_parse_code (const char *code, OrcProgram ***programs, int *n_programs,
   }
 
   if (enable_errors) {
-    *errors = ORC_VECTOR_AS_TYPE (&parser->errors, OrcParseError);
     *n_errors = orc_vector_length (&parser->errors);
+    /* orc_parse_error_freev() walks the array up to a NULL terminator */
+    orc_vector_append (&parser->errors, NULL);
+    *errors = ORC_VECTOR_AS_TYPE (&parser->errors, OrcParseError);
   }
 
   if (orc_vector_has_data (&parser->programs)) {
